@@ -68,4 +68,252 @@ example :
     let σ : GStore := { heap := gupd (gupd (fun _ => none) 1 [(0, .scalar 7)]) 2 [(0, .ref 1)], next := 3 }
     isRef (parsePtrS false (.slice .any) σ 2).2 2 = true := by decide
 
+/-! ### the pointer clause over every variant of every schema (`parsePtrP`, round 4c)
+
+    ptrP_input_unchanged       value-typed, optional, nilable or pointer-typed, any schema of the language, accepted or refused:
+                               Parse(&v) only allocates — the caller's variable, the pointee's graph, every schema cell hold
+                               what they held ("input value graph unchanged", the pointer half)
+    ptr_same_pointer_full      the clause as the reading states it: pointer-typed / optional / nilable, accepted, documented
+                               answer looks like the pointee (`wantSame = some true`, written without the model) → the SAME pointer
+    ptr_same_pointer_obj_witness   … false for the code as it is: an Object builds a new map even when nothing is stripped
+                               (`ObjectPtr({a}).Parse(&{a:x})` answers with a pointer of its own) — open: ptr:parse:different-pointer:ZodObject
+    ptr_same_pointer_partial   … true for every schema whose root is not an object (explicit decidable exclusion `rootObj`)
+    ptrP_obj_own_pointer       root object: the answer is a pointer allocated by the call (never the caller's)
+    ptr_clauses_exclusive      why `wantSame = some false` demands a pointer of its own: a store that left the input graph
+                               unchanged shows, through the caller's pointer, what it showed before — so the same pointer can
+                               never carry an answer that looks different from the pointee
+    ptr_letter_conflict        witness: `Object({9}).Parse(&{9:7, 10:7})` — documented answer `{9:7}` ≠ pointee: the letter of
+                               the two clauses cannot hold together there -/
+
+/-- the root (below defaults) is an object -/
+def rootObj : GSchema → Bool
+  | .obj _ _ _ => true
+  | .dflt _ t => rootObj t
+  | _ => false
+
+theorem ownedS_underDflt (n : Nat) (h : GHeap) : ∀ s, OwnedS n h s → OwnedS n h (underDflt s) := by
+  intro s
+  induction s with
+  | dflt d t ih => intro ho; exact ih ho.2
+  | any => exact id
+  | str ss => exact id
+  | lit rm ms => exact id
+  | obj m f k _ => exact id
+  | slice t _ => exact id
+  | record t _ => exact id
+  | union a b _ _ => exact id
+
+/-- **ptrP_input_unchanged**: Parse through a caller's pointer, every variant, every schema, accepted or refused, only allocates. -/
+theorem ptrP_input_unchanged (ps : PSchema) (σ : GStore) (p : Loc) (n : Nat) (hn : n ≤ σ.next) (ho : OwnedS n σ.heap ps.s) :
+    GExt σ.next σ (parsePtrP ps σ p).1 := by
+  have ho' := ownedS_underDflt n σ.heap ps.s ho
+  unfold parsePtrP
+  split
+  · split
+    · exact own_ptr_input_unchanged _ σ p n hn ho'
+    · split
+      · exact GExt.refl _ _
+      · split
+        · exact own_parse_ext _ σ _ n hn ho'
+        · exact GExt.refl _ _
+  · exact GExt.refl _ _
+
+/-- … hence what the caller sees through its pointer — cells and look — is what it saw (first clause, pointer half) -/
+theorem ptrP_pointee_unchanged (ps : PSchema) (σ : GStore) (p : Loc) (n : Nat) (hn : n ≤ σ.next) (ho : OwnedS n σ.heap ps.s)
+    (hb : ∀ x ∈ reach gdepth σ.heap (.ref p), x < σ.next) :
+    reach gdepth (parsePtrP ps σ p).1.heap (.ref p) = reach gdepth σ.heap (.ref p) ∧
+    ser gdepth (parsePtrP ps σ p).1.heap (.ref p) = ser gdepth σ.heap (.ref p) :=
+  g_graph_frame gdepth σ.next σ _ _ (ptrP_input_unchanged ps σ p n hn ho) hb
+
+/-- every type of the language that takes a pointer and is not an object hands back the value it was given -/
+theorem parse_keeps : ∀ (s : GSchema), takesPtr s = true → rootObj s = false → ∀ (σ : GStore) (v w : GVal),
+    (parseS (underDflt s) σ v).2 = some w → w = v := by
+  intro s
+  induction s with
+  | any => intro _ _ σ v w h; simp only [underDflt, parseS, Option.some.injEq] at h; exact h.symm
+  | str ss =>
+    intro _ _ σ v w h
+    simp only [underDflt] at h
+    unfold parseS at h
+    split at h
+    · simp only at h
+      split at h
+      · exact (Option.some.inj h).symm
+      · cases h
+    · cases h
+  | lit rm ms => intro ht; cases ht
+  | union a b _ _ => intro ht; cases ht
+  | dflt d t ih => intro ht hr σ v w h; exact ih ht hr σ v w h
+  | obj m f k _ => intro _ hr; cases hr
+  | slice t _ =>
+    intro _ _ σ v w h
+    simp only [underDflt] at h
+    unfold parseS at h
+    split at h
+    · split at h
+      · unfold validated at h
+        split at h
+        · exact (Option.some.inj h).symm
+        · cases h
+      · cases h
+    all_goals cases h
+  | record t _ =>
+    intro _ _ σ v w h
+    simp only [underDflt] at h
+    unfold parseS at h
+    split at h
+    · split at h
+      · unfold validated at h
+        split at h
+        · exact (Option.some.inj h).symm
+        · cases h
+      · cases h
+    all_goals cases h
+
+theorem sameV_flat (v : GVal) (hf : ∀ fs, v ≠ .agg fs) : sameV gdepth v v = true := by
+  cases v with
+  | scalar n => simp [gdepth, sameV]
+  | nil => simp [gdepth, sameV]
+  | ref l => simp [gdepth, sameV]
+  | agg fs => exact absurd rfl (hf fs)
+
+/-- **The clause, full strength** (reading of notes/C15.md): pointer-typed / optional / nilable schema, accepted, the documented
+    answer looks like what the pointer refers to → the caller's own pointer comes back. -/
+def ptr_same_pointer_full : Prop :=
+  ∀ (ps : PSchema) (σ : GStore) (p : Loc) (v : GVal),
+    readG σ.heap p = [(0, v)] → (∀ fs, v ≠ .agg fs) → (parsePtrP ps σ p).2.isSome = true →
+    wantSame ps σ p = some true → (parsePtrP ps σ p).2 = some (.ref p)
+
+/-- **ptr_same_pointer_partial**: the clause holds for every schema whose root is not an object. -/
+theorem ptr_same_pointer_partial (ps : PSchema) (hno : rootObj ps.s = false) (σ : GStore) (p : Loc) (v : GVal)
+    (hp : readG σ.heap p = [(0, v)]) (hf : ∀ fs, v ≠ .agg fs) (hacc : (parsePtrP ps σ p).2.isSome = true)
+    (hw : wantSame ps σ p = some true) : (parsePtrP ps σ p).2 = some (.ref p) := by
+  have hk : ps.kind.ptrTyped = true := by
+    unfold wantSame at hw
+    split at hw
+    · assumption
+    · cases hw
+  by_cases ht : takesPtr ps.s = true
+  · unfold parsePtrP at hacc ⊢
+    simp only [ht, hk, ↓reduceIte] at hacc ⊢
+    cases hq : (parseS (underDflt ps.s) σ v).2 with
+    | none =>
+      unfold parsePtrS at hacc
+      rw [hp] at hacc
+      simp only [hq] at hacc
+      cases hacc
+    | some w =>
+      have hwv := parse_keeps ps.s ht hno σ v w hq
+      subst hwv
+      exact own_ptr_same_pointer _ σ p w w hp hq (sameV_flat w hf)
+  · unfold parsePtrP at hacc
+    simp only [ht] at hacc
+    cases hacc
+
+/-- cell 1 = the caller's map `{9: 7}` (nothing the schema does not know), cell 2 = the caller's variable holding it -/
+def σq : GStore :=
+  { heap := gupd (gupd (fun _ => none) 1 [(9, .scalar 7)]) 2 [(0, .ref 1)], next := 3 }
+
+/-- **Witness (the code as it is)**: `ObjectPtr({9: any}).Parse(&m)`, `m = {9: 7}` — nothing to strip, the answer looks exactly
+    like `m`, the clause demands the caller's pointer — and the answer is a pointer of its own (cell 4) to a new map (cell 3). -/
+theorem ptr_same_pointer_obj_witness : ¬ ptr_same_pointer_full := by
+  intro h
+  have h1 := h ⟨.pointer, .obj .strip [9] (fun _ => .any)⟩ σq 2 (.ref 1) rfl (by intro fs hh; cases hh) (by decide) (by decide)
+  have h2 : isRef (parsePtrP ⟨.pointer, .obj .strip [9] (fun _ => .any)⟩ σq 2).2 4 = true := by decide
+  rw [h1] at h2
+  exact absurd h2 (by decide)
+
+/-- the same for the optional and the nilable variant, strip / loose / strict — and the slice, record, string and any roots
+    answer with the caller's pointer (hypotheses of `ptr_same_pointer_partial` met by realistic values) -/
+example :
+    isRef (parsePtrP ⟨.optional, .obj .loose [9] (fun _ => .any)⟩ σq 2).2 4 = true ∧
+    isRef (parsePtrP ⟨.nilable, .obj .strict [9] (fun _ => .any)⟩ σq 2).2 4 = true ∧
+    isRef (parsePtrP ⟨.optional, .record (.str [7])⟩ σq 2).2 2 = true ∧
+    isRef (parsePtrP ⟨.nilable, .dflt (.scalar 1) (.record .any)⟩ σq 2).2 2 = true ∧
+    isRef (parsePtrP ⟨.pointer, .any⟩ σq 2).2 2 = true ∧
+    isRef (parsePtrP ⟨.value, .any⟩ σq 2).2 2 = true ∧
+    isRef (parsePtrP ⟨.value, .record .any⟩ σq 2).2 1 = true ∧
+    (parsePtrP ⟨.pointer, .union .any .any⟩ σq 2).2.isSome = false ∧
+    wantSame ⟨.optional, .record (.str [7])⟩ σq 2 = some true ∧ rootObj (.record (.str [7])) = false := by decide
+
+/-- the pass over a container's entries never lowers the allocation mark -/
+theorem fold_next (n : Nat) (σ : GStore) (step : GStore → Nat × GVal → StepRes)
+    (hs : ∀ (σ' : GStore) (p : Nat × GVal), GExt n σ σ' → n ≤ σ'.next → GExt σ'.next σ' (step σ' p).1) (es : Entries)
+    (hn : n ≤ σ.next) : σ.next ≤ (foldEntries step es σ).1.next :=
+  (fold_ext n σ step hs es σ (GExt.refl _ _) hn).1
+
+/-- an object's answer is a cell allocated by the call -/
+theorem obj_builds_new : ∀ (s : GSchema), rootObj s = true → ∀ (σ : GStore) (v w : GVal) (n : Nat), n ≤ σ.next →
+    OwnedS n σ.heap (underDflt s) → (parseS (underDflt s) σ v).2 = some w → ∃ x, w = .ref x ∧ σ.next ≤ x := by
+  intro s
+  induction s with
+  | any => intro hr; cases hr
+  | str ss => intro hr; cases hr
+  | lit rm ms => intro hr; cases hr
+  | union a b _ _ => intro hr; cases hr
+  | slice t _ => intro hr; cases hr
+  | record t _ => intro hr; cases hr
+  | dflt d t ih => intro hr σ v w n hn ho h; exact ih hr σ v w n hn ho h
+  | obj mode fields kids _ =>
+    intro _ σ v w n hn ho h
+    simp only [underDflt] at h ho
+    unfold parseS at h
+    split at h
+    · next l =>
+      split at h
+      · have e := fold_next n σ (objStep mode fields (fun k => parseS (kids k))) (fun σ' p he hn' => by
+          unfold objStep
+          split
+          · exact own_parse_ext (kids p.1) σ' p.2 n hn' (owned_ext n σ σ' he _ (ho p.1))
+          · unfold unknownStep
+            split <;> exact GExt.refl _ _) (readG σ.heap l) hn
+        unfold finish at h
+        split at h
+        · cases h
+        · simp only [Option.some.injEq] at h
+          exact ⟨_, h.symm, e⟩
+      · cases h
+    all_goals cases h
+
+/-- **ptrP_obj_own_pointer**: a pointer-typed / optional / nilable object schema answers an accepted pointee with a pointer
+    allocated by the call — never the caller's. -/
+theorem ptrP_obj_own_pointer (ps : PSchema) (hk : ps.kind.ptrTyped = true) (hr : rootObj ps.s = true) (ht : takesPtr ps.s = true)
+    (σ : GStore) (p l : Loc) (n : Nat) (hn : n ≤ σ.next) (ho : OwnedS n σ.heap ps.s)
+    (hp : readG σ.heap p = [(0, .ref l)]) (hl : l < σ.next) (hacc : (parsePtrP ps σ p).2.isSome = true) :
+    ∃ q, (parsePtrP ps σ p).2 = some (.ref q) ∧ σ.next ≤ q := by
+  unfold parsePtrP at hacc ⊢
+  simp only [ht, hk, ↓reduceIte] at hacc ⊢
+  cases hq : (parseS (underDflt ps.s) σ (.ref l)).2 with
+  | none =>
+    unfold parsePtrS at hacc
+    rw [hp] at hacc
+    simp only [hq] at hacc
+    cases hacc
+  | some w =>
+    obtain ⟨x, rfl, hx⟩ := obj_builds_new ps.s hr σ (.ref l) w n hn (ownedS_underDflt n σ.heap ps.s ho) hq
+    have hd : sameV gdepth (.ref x) (.ref l) = false := by
+      have : x ≠ l := Nat.ne_of_gt (Nat.lt_of_lt_of_le hl hx)
+      simp [gdepth, sameV, this]
+    have := own_ptr_own_pointer _ σ p (.ref l) (.ref x) hp hq hd
+    refine ⟨_, this.1, ?_⟩
+    exact (own_parse_ext (underDflt ps.s) σ (.ref l) n hn (ownedS_underDflt n σ.heap ps.s ho)).1
+
+/-- **ptr_clauses_exclusive**: whatever a Parse that left the input graph unchanged did, the caller's pointer shows afterwards
+    what it showed before. So where the documented answer does not look like the pointee (`wantSame = some false`), "the same
+    pointer comes back" and "the input graph is unchanged" cannot both hold: a pointer of its own is the only answer. -/
+theorem ptr_clauses_exclusive (σ τ : GStore) (p : Loc) (he : GExt σ.next σ τ)
+    (hb : ∀ x ∈ reach gdepth σ.heap (.ref p), x < σ.next) :
+    ser gdepth τ.heap (.ref p) = ser gdepth σ.heap (.ref p) :=
+  (g_graph_frame gdepth σ.next σ τ (.ref p) he hb).2
+
+/-- **Witness (the letter of the two clauses)**: `Object({9: any}).Optional().Parse(&m)`, `m = {9: 7, 10: 7}`: the documented
+    answer drops key 10 (`wantSame = some false`); the code answers with its own pointer (cell 4), the answer looks like
+    `&{9: 7}`, not like what the caller's pointer shows, and the caller's pointer shows what it showed. -/
+theorem ptr_letter_conflict :
+    let ps : PSchema := ⟨.optional, .obj .strip [9] (fun _ => .any)⟩
+    wantSame ps σp 2 = some false ∧
+    isRef (parsePtrP ps σp 2).2 4 = true ∧
+    ser gdepth (parsePtrP ps σp 2).1.heap (.ref 4) ≠ ser gdepth σp.heap (.ref 2) ∧
+    ser gdepth (parsePtrP ps σp 2).1.heap (.ref 2) = ser gdepth σp.heap (.ref 2) := by decide
+
 end Gozod.C15
